@@ -326,8 +326,27 @@ PROPS["C11"] = dict(
     thorough=dict(shards=16, timeout=3000),
 )
 
+PROPS["C10"] = dict(
+    pkg="c10", env=dict(VERIF_SHRINKTIME="15s"), level="exploration", design_ref="DESIGN.md section 3, C10",
+    technique="rapid-generated (transport, pending calls, client timeout, peer behaviour at each point of the exchange, terminator) cases against scripted peers and real servers with a termination-time oracle, pending-entry/cancel-function accessors and a goroutine-count oracle; forced interleavings of Abort, cancellation and connection loss with registration and enqueue through verif yield points",
+    level_text=("(a) A scripted peer (tcp, unix, udp, websocket) or a raw HTTP listener receives 1-4 pending calls and then answers, stays silent, closes, resets, sends part of a header or "
+                "body and stalls or closes, announces 2 GiB, sends bad checksums, short messages, error frames or strangers' answers; the client has no timeout or a short one and the calls "
+                "are ended by timeout, context cancellation or Abort at a generated moment. Every call must return in time (promptly after loss, abort or cancellation; by its timeout "
+                "otherwise) with an error unless answered; afterwards the transport must hold no pending-call entry and the client no cancel function, the next call must succeed, and the "
+                "goroutine count must return to its level before the case. (b) The same terminators against real servers on all eight transports with slow (gated) functions, late "
+                "completions and a surviving call. (c) 25-150 rounds of failure and recovery per transport and terminator: nothing may accumulate. (d) Yield points in conn.Transport hold a "
+                "call before or after its registration while the connection is lost, the client aborted or the context cancelled. (e) A peer that stops reading blocks the sender with a "
+                "16 MiB call and two more queue behind it, then reset / abort / cancel. (f) The service-side ExecuteTimeout plugin."),
+    level_note="Time bounds carry 0.7 s of scheduling slack and 'promptly' means within 1.5 s; a call is declared stuck only when it is still pending 5 s after its bound. Liveness is checked as bounded termination only.",
+    rule=("rapid-drawn cases; non-trivial = the peer does not simply answer. forced-races / stalled-sender / no-accumulation / service-timeout: enumerated scenarios. Classes: transport x peer behaviour, "
+          "terminator, timeout set or not, yield point x event. Distinct by case text."),
+    assumptions=["loopback networking and unix sockets are available", "the machine is not so loaded that a runnable goroutine waits more than 0.7 s"],
+    quick=dict(shards=4, timeout=1200),
+    thorough=dict(shards=8, timeout=3600),
+)
+
 # properties not claimed yet (kept current as checks land)
 _ALL = ["C%02d" % i for i in range(1, 21)]
 NOT_APPLICABLE = [dict(property_id=p, reason="check not built yet in this revision (planned in DESIGN.md section 3); not a limit of the technique")
                   for p in _ALL if p not in PROPS]
-HOOK_COMMITS = ["16e4c9c", "8b4a7e5", "8ae0263"]
+HOOK_COMMITS = ["16e4c9c", "8b4a7e5", "8ae0263", "d615bbe"]
